@@ -463,7 +463,14 @@ def run(ctx):
     ctx.add_violations(r["violations"])
     for s in r["sample_histories"]:
         ctx.sample({"history": s})
+    # the mapping handed to children is computed concurrently by alias threads and the main thread:
+    # the launch-time clause is also explored under schedules (one thread launches while another
+    # assigns / swaps), reusing the C11 scheduler harness
+    from . import c11_sched
+
+    sched = c11_sched.run_part(ctx, pairs=[("swapA", "setBar"), ("observer", "setBar")])
     ctx.coverage.update(
+        schedule_part=sched["summary"],
         states=r["states"],
         transitions=r["transitions"],
         traces_validated_against_impl=r["transitions"],
